@@ -11,9 +11,10 @@ import Mfi.Driver.AccountD
 import Mfi.Driver.TxD
 import Mfi.Driver.RiskD
 import Mfi.Driver.TransferD
+import Mfi.Driver.IxD
 open Mfi.Driver
 
-def handlers : List (String → List Int → Option String) := [fxOp, panicOp, irOp, igOp, bankOp, tokOp, gateOp, authOp, adminOp, acctOp, txOp, riskOp, liqOp, xferOp]
+def handlers : List (String → List Int → Option String) := [fxOp, panicOp, irOp, igOp, bankOp, tokOp, gateOp, authOp, adminOp, acctOp, txOp, riskOp, liqOp, xferOp, ixOp, liqIxOp]
 
 def stepLine (line : String) : String :=
   match line.trimAscii.toString.splitOn " " with
